@@ -33,6 +33,8 @@ THEOREMS = [
     "empty_yields_none", "concurrent_retrieve_partition", "no_double_delivery", "oblivious", "wf_empty",
     "trace_eq_zip", "routeMany_is_routes", "stmt_locked_exactly_once_fifo", "stmt_unlocked_double_delivery",
     "mem_each_message_once", "sql_each_message_once",
+    # Props/C08Txn.lean: a refused COMMIT - a call that returns did its work once, a call that raises did nothing; the in-transaction retry duplicates
+    "send_once_or_nothing", "retrieve_once_or_nothing", "retry_in_transaction_duplicates", "retry_in_transaction_copies", "code_is_straight_line",
 ]
 
 Op = tuple  # ("route", id) | ("many", (ids…)) | ("retrieve",) | ("count",) | ("purge",)
@@ -732,7 +734,9 @@ def _run_keep(c: Conc, init, progs, chooser):
 # ------------------------------------------------------------------------------------------------
 
 def run(ctx: Ctx) -> None:
-    lean_stage(ctx, None, THEOREMS)
+    from harness.translate import brokersend
+
+    lean_stage(ctx, brokersend.gen, THEOREMS)
     drv = LeanDriver()
     ctx.cov["rule"] = ("sequential: every sequence over {route a, route b, batch [a,b,a], batch [], retrieve, count, purge} up to the "
                        "tier's length, plus seeded random long sequences (repeated ids, empty id, batches), each followed by a full drain; "
